@@ -125,8 +125,82 @@ def sock_sendall(it, sock, payload):
     return None
 
 
+def queue_put(it, q, item, *a, **k):
+    q.fields['out'].items.append(item)
+    return None
+
+
+def queue_get(it, q, *a, **k):
+    """Assumed contract of queue.Queue as a FIFO channel fed by another thread: get() returns the
+    next message of the producer's stream -- here an arbitrary text without CR (what a seat's
+    receive_message can deliver) -- or, for interruptible queues, raises KeyboardInterrupt (the
+    operator interrupts the blocked table manager)."""
+    from .strings import XStr
+    from .interp import PyRaise
+    if q.fields.get('interruptible'):
+        if it.ctx.decide(mk_bool(it.ctx.fresh_bool('interrupted'))):
+            raise PyRaise(KeyboardInterrupt, ('<operator>',))
+    msg = XStr.atom(it.ctx.fresh_name('msg'), excl='\r')
+    q.fields['gets'].items.append(msg)
+    return msg
+
+
+def _none(it, obj, *a, **k):
+    return None
+
+
+def _fresh_bool(it, obj, *a, **k):
+    return mk_bool(it.ctx.fresh_bool('ext_bool'))
+
+
+def ssocket_accept(it, sock):
+    conn = SExt('socket', dict(data=_fresh_bytes_seq(it, 'conn_data'), pos=0, sent=SList([]),
+                               closed=False))
+    return (conn, ('<addr>', 0))
+
+
+def _fresh_bytes_seq(it, name):
+    from .dsl import IntElem
+    n = it.ctx.fresh_int(name + '_len')
+    it.ctx.assume_type(n >= 0)
+    return SSeq(n, z3.Array(it.ctx.fresh_name(name + '_arr'), z3.IntSort(), z3.IntSort()), IntElem())
+
+
+def boardlist_getitem(it, bl, idx):
+    from .interp import PyRaise
+    n = bl.fields['n']
+    if it.ctx.decide(mk_bool(z3.Or(T(idx) < -T(n), T(idx) >= T(n)))):
+        raise PyRaise(IndexError, ('list index out of range',))
+    bl.fields['reads'].items.append(idx)
+    item = bl.fields['item_shape'].fresh(it.ctx, it.ctx.fresh_name('board_setting'))
+    pred = bl.fields.get('item_pred')
+    if pred is not None:
+        # assumed well-formedness of a configured board (e.g. the four hands are disjoint)
+        it.ctx.assume(it.truth(it.run_body(pred, {'b': item})))
+    bl.fields['last_orig'] = V.clone_value(item, {})     # ghost: the board as configured
+    return item
+
+
+GETITEM = {'boardlist': boardlist_getitem}
+LEN = {'boardlist': lambda it, o: o.fields['n']}
+
+
 METHODS = {
     ('file', 'write'): file_write,
+    ('file', '__enter__'): lambda it, f: f,
+    ('file', '__exit__'): lambda it, f, *a: False,
+    ('file', 'close'): _none,
+    ('queue', 'put'): queue_put,
+    ('queue', 'get'): queue_get,
+    ('event', 'wait'): _none,
+    ('event', 'set'): _none,
+    ('event', 'clear'): _none,
+    ('event', 'is_set'): _fresh_bool,
+    ('ssocket', 'bind'): _none,
+    ('ssocket', 'listen'): _none,
+    ('ssocket', 'accept'): ssocket_accept,
+    ('ssocket', 'close'): _none,
+    ('ssocket', 'connect'): _none,
     ('socket', 'recv'): sock_recv,
     ('socket', 'sendall'): sock_sendall,
     ('socket', 'close'): lambda it, s: s.fields.__setitem__('closed', True),
